@@ -357,7 +357,7 @@ def _num(a):
 
 
 def lt(a, b):
-    a, b = _num(a), _num(b)
+    a, b = _num(lift(a)), _num(lift(b))
     r = _cmp_fold('lt', a, b)
     if r is not None:
         return TRUE if r else FALSE
@@ -370,7 +370,7 @@ def lt(a, b):
 
 
 def le(a, b):
-    a, b = _num(a), _num(b)
+    a, b = _num(lift(a)), _num(lift(b))
     r = _cmp_fold('le', a, b)
     if r is not None:
         return TRUE if r else FALSE
@@ -383,6 +383,7 @@ def le(a, b):
 
 
 def eq(a, b):
+    a, b = lift(a), lift(b)
     if a.sort == BOOL and b.sort == BOOL:
         if a is b:
             return TRUE
